@@ -176,6 +176,12 @@ def pair_sexpr(pid, mode, case_a, rec_a, rec_b):
                                       alpha_module(rec_a["out"], ca), alpha_module(rec_b["out"], cb))
 
 
+def self_pair_sexpr(pid, mode, case, rec):
+    """driver line comparing a run's OUTPUT with its own INPUT (idempotence: the input is an earlier output)"""
+    c = Ctx(rec.get("unresolved_ctxt"), collect_ctxts(rec.get("in"), set()))
+    return "(pair %s %s %s %s %s)" % (enc(str(pid)), enc(mode), opts_env_sexpr(case, rec), alpha_module(rec["out"], c), alpha_module(rec["in"], c))
+
+
 if __name__ == "__main__":
     import sys
     for line in sys.stdin:
